@@ -14,14 +14,25 @@ use crate::value::{
 use crate::value::{number_exponentiate, to_int32, to_uint32};
 use core::cmp::Ordering;
 
-/// Order of two operands of `<`, `<=`, `>`, `>=`: two strings compare by
-/// UTF-16 code units, anything else numerically. `None` when a NaN is
-/// involved (every relational operator is then false).
-fn relational_order(left: &JsValue, right: &JsValue) -> Option<Ordering> {
-    if let (JsValue::String(l), JsValue::String(r)) = (left, right) {
-        return Some(l.as_str().encode_utf16().cmp(r.as_str().encode_utf16()));
+/// Order of two operands of `<`, `<=`, `>`, `>=`: both are converted to
+/// primitives (hint number); two strings compare by UTF-16 code units,
+/// anything else numerically. `None` when a NaN is involved (every
+/// relational operator is then false).
+fn relational_order(
+    interp: &mut Interpreter,
+    left: &JsValue,
+    right: &JsValue,
+) -> Result<Option<Ordering>, JsError> {
+    let left = interp.coerce_to_primitive(left, "number")?;
+    let right = interp.coerce_to_primitive(right, "number")?;
+    if let (JsValue::String(l), JsValue::String(r)) = (&left, &right) {
+        return Ok(Some(
+            l.as_str().encode_utf16().cmp(r.as_str().encode_utf16()),
+        ));
     }
-    left.to_number().partial_cmp(&right.to_number())
+    let left = interp.coerce_to_number(&left)?;
+    let right = interp.coerce_to_number(&right)?;
+    Ok(left.partial_cmp(&right))
 }
 
 
@@ -2186,25 +2197,25 @@ impl BytecodeVM {
             }
 
             Op::Lt { dst, left, right } => {
-                let ordering = relational_order(self.get_reg(left), self.get_reg(right));
+                let ordering = relational_order(interp, self.get_reg(left), self.get_reg(right))?;
                 self.set_reg(dst, JsValue::Boolean(matches!(ordering, Some(Ordering::Less))));
                 Ok(OpResult::Continue)
             }
 
             Op::LtEq { dst, left, right } => {
-                let ordering = relational_order(self.get_reg(left), self.get_reg(right));
+                let ordering = relational_order(interp, self.get_reg(left), self.get_reg(right))?;
                 self.set_reg(dst, JsValue::Boolean(matches!(ordering, Some(Ordering::Less | Ordering::Equal))));
                 Ok(OpResult::Continue)
             }
 
             Op::Gt { dst, left, right } => {
-                let ordering = relational_order(self.get_reg(left), self.get_reg(right));
+                let ordering = relational_order(interp, self.get_reg(left), self.get_reg(right))?;
                 self.set_reg(dst, JsValue::Boolean(matches!(ordering, Some(Ordering::Greater))));
                 Ok(OpResult::Continue)
             }
 
             Op::GtEq { dst, left, right } => {
-                let ordering = relational_order(self.get_reg(left), self.get_reg(right));
+                let ordering = relational_order(interp, self.get_reg(left), self.get_reg(right))?;
                 self.set_reg(dst, JsValue::Boolean(matches!(ordering, Some(Ordering::Greater | Ordering::Equal))));
                 Ok(OpResult::Continue)
             }
@@ -2213,43 +2224,43 @@ impl BytecodeVM {
             // Bitwise Operations
             // ═══════════════════════════════════════════════════════════════════════════
             Op::BitAnd { dst, left, right } => {
-                let left_val = to_int32(self.get_reg(left).to_number());
-                let right_val = to_int32(self.get_reg(right).to_number());
+                let left_val = to_int32(interp.coerce_to_number(self.get_reg(left))?);
+                let right_val = to_int32(interp.coerce_to_number(self.get_reg(right))?);
                 self.set_reg(dst, JsValue::Number((left_val & right_val) as f64));
                 Ok(OpResult::Continue)
             }
 
             Op::BitOr { dst, left, right } => {
-                let left_val = to_int32(self.get_reg(left).to_number());
-                let right_val = to_int32(self.get_reg(right).to_number());
+                let left_val = to_int32(interp.coerce_to_number(self.get_reg(left))?);
+                let right_val = to_int32(interp.coerce_to_number(self.get_reg(right))?);
                 self.set_reg(dst, JsValue::Number((left_val | right_val) as f64));
                 Ok(OpResult::Continue)
             }
 
             Op::BitXor { dst, left, right } => {
-                let left_val = to_int32(self.get_reg(left).to_number());
-                let right_val = to_int32(self.get_reg(right).to_number());
+                let left_val = to_int32(interp.coerce_to_number(self.get_reg(left))?);
+                let right_val = to_int32(interp.coerce_to_number(self.get_reg(right))?);
                 self.set_reg(dst, JsValue::Number((left_val ^ right_val) as f64));
                 Ok(OpResult::Continue)
             }
 
             Op::LShift { dst, left, right } => {
-                let left_val = to_int32(self.get_reg(left).to_number());
-                let right_val = to_uint32(self.get_reg(right).to_number()) & 0x1F;
+                let left_val = to_int32(interp.coerce_to_number(self.get_reg(left))?);
+                let right_val = to_uint32(interp.coerce_to_number(self.get_reg(right))?) & 0x1F;
                 self.set_reg(dst, JsValue::Number((left_val << right_val) as f64));
                 Ok(OpResult::Continue)
             }
 
             Op::RShift { dst, left, right } => {
-                let left_val = to_int32(self.get_reg(left).to_number());
-                let right_val = to_uint32(self.get_reg(right).to_number()) & 0x1F;
+                let left_val = to_int32(interp.coerce_to_number(self.get_reg(left))?);
+                let right_val = to_uint32(interp.coerce_to_number(self.get_reg(right))?) & 0x1F;
                 self.set_reg(dst, JsValue::Number((left_val >> right_val) as f64));
                 Ok(OpResult::Continue)
             }
 
             Op::URShift { dst, left, right } => {
-                let left_val = to_uint32(self.get_reg(left).to_number());
-                let right_val = to_uint32(self.get_reg(right).to_number()) & 0x1F;
+                let left_val = to_uint32(interp.coerce_to_number(self.get_reg(left))?);
+                let right_val = to_uint32(interp.coerce_to_number(self.get_reg(right))?) & 0x1F;
                 self.set_reg(dst, JsValue::Number((left_val >> right_val) as f64));
                 Ok(OpResult::Continue)
             }
@@ -2382,7 +2393,7 @@ impl BytecodeVM {
             }
 
             Op::BitNot { dst, src } => {
-                let val = to_int32(self.get_reg(src).to_number());
+                let val = to_int32(interp.coerce_to_number(self.get_reg(src))?);
                 self.set_reg(dst, JsValue::Number((!val) as f64));
                 Ok(OpResult::Continue)
             }
